@@ -276,11 +276,11 @@ def run(ctx):
   rng = np.random.default_rng(ctx.seed + 5)
   # random larger patterns: repeats, arbitrary order
   for size in (1, 2, 3, 4):
-    for _ in range(10 if ctx.quick else 60):
+    for _ in range(10 if ctx.quick else 150):
       rows = int(rng.integers(3, 9))
       pats[str(size)].append(rng.integers(1, 9, size=(rows, size)).tolist())
   rs = []
-  n_tr = 3 if ctx.quick else 16
+  n_tr = 3 if ctx.quick else 40
   per = 14 if ctx.quick else 60
   for name in gen.ALL:
     for k in range(n_tr):
